@@ -343,7 +343,7 @@ theorem C07_first_no_skip_rep_fail (g : NodeGrammar) (uni : Uni) (fuel : Nat) (i
   simp only [parse, repLoop, hmax, if_false, repUnitP_first]
   rw [show parse g uni (fuel+1) inh x i m = .fail mf from h]
   simp only [restoreOnNone]
-  by_cases hm : 0 < min <;> simp [hm]
+  by_cases hm : 0 < min <;> simp [hm, repDone_eq_of_length]
 
 example : (c07Node true (.rep .one 0 none (.str ['x'])) [' ', 'x']).endPos? = some 0 := by decide
 
